@@ -186,12 +186,15 @@ func (ex *Exec) derefLoad(p Val, typ types.Type) Val {
 // loadStructValue builds a value handle from the heap fields of the object at ref.
 func (ex *Exec) loadStructValue(ref *T, t types.Type) *T {
 	st := structOf(t)
-	h := ex.fresh("val."+structName(t), SInt)
+	var fs []*T
 	for i := 0; i < st.NumFields(); i++ {
 		f := st.Field(i)
-		ex.assume(Eq(ex.vfield(h, t, f), Select(ex.get(ex.st, ex.heapKey(t, f)), ref)))
+		fs = append(fs, Select(ex.get(ex.st, ex.heapKey(t, f)), ref))
 	}
-	return h
+	if st.NumFields() == 0 {
+		return I(0)
+	}
+	return ex.mkStruct(t, fs)
 }
 
 // storeStructValue writes all fields of value handle h into the heap object at ref.
@@ -908,11 +911,10 @@ func (ex *Exec) evalCompositeLit(e *ast.CompositeLit, addr bool) Val {
 			}
 			return Val{ref, types.NewPointer(typ)}
 		}
-		h := ex.fresh("lit."+structName(typ), SInt)
-		for j := 0; j < u.NumFields(); j++ {
-			ex.assume(Eq(ex.vfield(h, typ, u.Field(j)), vals[j]))
+		if u.NumFields() == 0 {
+			return Val{I(0), typ}
 		}
-		return Val{h, typ}
+		return Val{ex.named(ex.mkStruct(typ, vals), "lit"), typ}
 	case *types.Slice, *types.Array:
 		elem := elemTypeOf(typ)
 		base := ex.fresh("litarr", SInt)
@@ -1059,19 +1061,27 @@ func (ex *Exec) srGet(st *State, o *types.Var, f *types.Var) *T {
 // srAssemble builds a value handle from the field entries.
 func (ex *Exec) srAssemble(st *State, o *types.Var) *T {
 	s := structOf(o.Type())
-	h := ex.fresh("sr."+o.Name(), SInt)
+	var fs []*T
 	for i := 0; i < s.NumFields(); i++ {
-		f := s.Field(i)
-		ex.rawFact(Eq(ex.vfield(h, o.Type(), f), ex.srGet(st, o, f)))
+		fs = append(fs, ex.srGet(st, o, s.Field(i)))
 	}
-	return h
+	if s.NumFields() == 0 {
+		return I(0)
+	}
+	return ex.mkStruct(o.Type(), fs)
 }
 
 // srExplode assigns a whole struct value to the field entries.
 func (ex *Exec) srExplode(o *types.Var, h *T) {
 	s := structOf(o.Type())
+	var fs []*T
 	for i := 0; i < s.NumFields(); i++ {
 		f := s.Field(i)
-		ex.st.env[ex.srKey(o, f)] = ex.vfield(h, o.Type(), f)
+		fs = append(fs, ex.vfield(h, o.Type(), f))
+		ex.st.env[ex.srKey(o, f)] = fs[i]
+	}
+	// a struct value is determined by its fields: re-assembling the exploded value gives the original back
+	if s.NumFields() > 0 && h.Op != "mk."+structName(o.Type()) {
+		ex.rawFact(Eq(ex.mkStruct(o.Type(), fs), h))
 	}
 }
